@@ -614,7 +614,7 @@ func newHost() *host {
 	defer func() { tHost.Add(int64(time.Since(t0))) }()
 	h := &host{adminSes: map[string]string{}, gen: map[string]int64{}, used: map[string]bool{}, docIDs: map[string]string{}}
 	h.dir = lib.Scratch("c18")
-	so := sessions.DefaultOptions().WithMaxSessions(1 << 20).WithSessionGuardCheckInterval(time.Millisecond)
+	so := sessions.DefaultOptions().WithMaxSessions(1 << 20).WithSessionGuardCheckInterval(time.Second)
 	opts := server.DefaultOptions().WithDir(h.dir).WithPort(0).WithAuth(true).WithMetricsServer(false).WithWebServer(false).
 		WithPgsqlServer(false).WithAdminPassword("immudb").WithSynced(false).WithSessionOptions(so).
 		WithGRPCReflectionServerEnabled(false).WithLogFormat(logger.LogFormatJSON).WithNoHistograms(true)
